@@ -83,6 +83,82 @@ def brace_stream(ctx):
         loop.close()
 
 
+
+MW_WORDS = ["alpha", "beta", "render", "title", "as", "x1", "a_b", "12", "3.5", '"<em>"', '"two words"', '"x>"', '"b<c>"', '"q"', "Done"]
+OPS = [("->", "\u2192"), ("+", "\u2295"), ("~", "\u29fa"), ("|", "\u2228"), ("&", "\u2227"), ("<->", "\u21cc")]
+
+
+class _Pos:
+    """text builder that tracks the 1-based (line, column) of the next character"""
+    def __init__(self):
+        self.parts, self.line, self.col = [], 1, 1
+
+    def w(self, text):
+        self.parts.append(text)
+        for ch in text:
+            if ch == "\n":
+                self.line += 1
+                self.col = 1
+            else:
+                self.col += 1
+
+    def text(self):
+        return "".join(self.parts)
+
+
+def free_multiword_stream(ctx, surfaces):
+    """Multi-word bare values built from identifiers, numbers and QUOTED words (also quoted words that look like
+    annotations), and list items that follow a triple-quoted string spanning lines: the expected receipts (kind, text,
+    line, column) are computed from the text alone."""
+    for _ in range(ctx.scale(150, 3000)):
+        rng = random.Random(ctx.rng.random())
+        o = _Pos()
+        want = []
+        o.w("===D===\n")
+        if rng.random() < 0.6:
+            words = [rng.choice(MW_WORDS) for _ in range(rng.randint(2, 5))]
+            if all(w[0].isdigit() for w in words):
+                words[-1] = "alpha"
+            key = rng.choice(["K", "HINT", "NOTE_1"])
+            o.w(key + "::")
+            want.append(("multi", " ".join(words), " ".join(words), o.line, o.col))
+            o.w(" ".join(words) + "\n")
+        else:
+            o.w("ITEMS::[")
+            body = rng.choice(["first line\nsecond line", "a\n\nb", "one\ntwo\nthree", "x\n  indented tail"])
+            want.append(("norm", '"""', body, o.line, o.col))
+            o.w('"""' + body + '"""')
+            for _k in range(rng.randint(1, 3)):
+                o.w(", " if rng.random() < 0.7 else ",")
+                kind = rng.random()
+                if kind < 0.45:
+                    a, u = rng.choice(OPS)
+                    o.w("p")
+                    want.append(("norm", a, u, o.line, o.col))
+                    o.w(a + "q")
+                elif kind < 0.8:
+                    ws = [rng.choice(["hello", "world", "again", "x1"]) for _ in range(rng.randint(2, 3))]
+                    want.append(("multi", " ".join(ws), " ".join(ws), o.line, o.col))
+                    o.w(" ".join(ws))
+                else:
+                    o.w("plain")
+            o.w("]\n")
+        o.w("===END===\n")
+        t = o.text()
+        want = sorted(want)
+        ctx.nontrivial(("free-multiword", t))
+        for name, got in surfaces(t).items():
+            if name.startswith("octave_write(strict)"):
+                continue                                   # strict write drops parser receipts: listed finding
+            ctx.count()
+            if isinstance(got, str):
+                ctx.hist("surface_rejected_input", name)
+                continue
+            if got != want:
+                ctx.property_failure({"text": t, "surface": name, "expected": want, "reported": got, "stream": "free multi-word / multi-line string"},
+                                     f"{name}: receipts differ from the rewrites in the input")
+
+
 def run(ctx):
     hm = doccases.have_model(ctx)
     # core fragment of Rt/TokRound.v (theorem parse_core_doc): deep nesting, scalars of every kind
@@ -127,6 +203,7 @@ def run(ctx):
         if got != sorted(tuple(x) for x in c["expected"]):
             ctx.property_failure({"text": c["text"], "surface": c["surface"], "expected": c["expected"], "reported": got, "corpus": cf.name},
                                  f"{c['surface']}: receipts differ from the rewrites in the input (corpus {cf.name})")
+    free_multiword_stream(ctx, surfaces)
     cases = [c for c in doccases.gen_docs(ctx, ctx.scale(500, 8000), valid_fraction=1.0) if not c[1]]
     reps = ctx.scale(3, 10)
     texts = []
